@@ -11,6 +11,10 @@ import TsVerif.C06.NamedFcb
 import TsVerif.C06.CursorFcb
 import TsVerif.C06.FieldWitness
 import TsVerif.C06.CursorParent
+import TsVerif.C06.CursorFcbFlat
+import TsVerif.C06.FieldNamed
+import TsVerif.C06.RangeFlat
+import TsVerif.C06.RangeFlatP
 #print axioms TsVerif.C06.child_spec
 #print axioms TsVerif.C06.flattenKids_length
 #print axioms TsVerif.C06.child_count_spec
@@ -130,3 +134,16 @@ import TsVerif.C06.CursorParent
 #print axioms TsVerif.C06.next_internal_shape
 #print axioms TsVerif.C06.next_sibling_keeps_parent
 #print axioms TsVerif.C06.next_sibling_depth
+#print axioms TsVerif.C06.enumRefs_withinL
+#print axioms TsVerif.C06.cfcIdeal_flat
+#print axioms TsVerif.C06.cursor_first_child_for_ft_spec
+#print axioms TsVerif.C06.fn_go_spec_named
+#print axioms TsVerif.C06.field_name_for_named_child_spec
+#print axioms TsVerif.C06.dfrHA
+#print axioms TsVerif.C06.vgoA_eq_dfr
+#print axioms TsVerif.C06.ftgo_eq_vgoA
+#print axioms TsVerif.C06.named_descendant_for_byte_range_ft_spec
+#print axioms TsVerif.C06.dfrHP
+#print axioms TsVerif.C06.vgoP_eq_dfr
+#print axioms TsVerif.C06.ftgo_eq_vgoP
+#print axioms TsVerif.C06.descendant_for_point_range_ft_spec
